@@ -31,20 +31,23 @@ for cls_name, kw in sorted(dm._DATASET_KEYWORDS.items()):
             bad = dict(input={"message": cls_name, kw: label}, observed=f"primitive_to_message raised {e!r}", expected="no exception")
             break
         announces = msg.command_set.CommandDataSetType != 0x0101
-        pds = list(msg.encode_msg(1, 16382))
-        data_frags = sum(1 for pd in pds for (_c, v) in pd.presentation_data_value_list if not (v[0] & 1))
-        rx = DIMSEMessage()
-        complete = False
-        for pd in pds:
-            q = P_DATA()
-            q.presentation_data_value_list = [list(x) for x in pd.presentation_data_value_list]
-            try:
-                complete = rx.decode_msg(q)
-            except Exception as e:
-                complete = f"raised {e!r}"
+        for mx in (16382, 0, 16):           # peer maximum PDU length: ordinary, unlimited, tiny
+            pds = list(msg.encode_msg(1, mx))
+            data_frags = sum(1 for pd in pds for (_c, v) in pd.presentation_data_value_list if not (v[0] & 1))
+            rx = DIMSEMessage()
+            complete = False
+            for pd in pds:
+                q = P_DATA()
+                q.presentation_data_value_list = [list(x) for x in pd.presentation_data_value_list]
+                try:
+                    complete = rx.decode_msg(q)
+                except Exception as e:
+                    complete = f"raised {e!r}"
+                    break
+            if announces != (data_frags > 0) or complete is not True:
                 break
         if announces != (data_frags > 0) or complete is not True:
-            bad = dict(input={"message": cls_name, kw: label},
+            bad = dict(input={"message": cls_name, kw: label, "peer maximum PDU length": mx},
                        observed={"CommandDataSetType": hex(msg.command_set.CommandDataSetType), "data_fragments_sent": data_frags,
                                  "receiver_completed_message": complete},
                        expected="data set announced iff data fragments are sent; receiver completes the message")
